@@ -275,6 +275,10 @@ def _asked_again(ctx, case, ast, text, route, router, b, anon, named, url):
         return
     named2 = R.named(b2)
     anon2 = [v for n, _, v in b2 if not n]
+    if (any(isinstance(v, float) and _exp_float(v) for _, _, v in b2) or _neg_zero_after_wildcard(ast, b2) or _int_respelled_digits_after_wildcard(ast, b2)
+            or _float_text_after_lookahead(ast, b2)):
+        ctx.exclude('rotated_assignment_in_a_known_finding_zone(K19)')          # the open findings K19-*: excluded by construction, as in the main round trip
+        return
     ep0, _ = router.resolve(path2, ['GET'])
     if ep0 is None or ep0[0].route is not route or ep0[1] != named2:
         ctx.count('rotated_assignment_not_produced_by_a_match(unjudged)')          # the property speaks of assignments that matching a path produced
